@@ -848,17 +848,76 @@ def _rename_map(j):
     sp = os.path.join(os.path.dirname(vp), 'vocab_sigs.json')
     sigs = json.load(open(sp)) if os.path.exists(sp) else {}
     out = {}
-    used = set()
-    for g in sorted(gone):
+
+    def key(inputs, output):
+        return (tuple(sorted(inputs or [])), output)
+    gk = {}
+    for g in gone:
         sg = sigs.get(g)
-        if sg is None:
-            continue
-        cands = [n for n in new if n not in used and [have[n].get('inputs'), have[n].get('output')] == sg and (parent(n) == parent(g) or module(n) == module(g))]
-        same_parent = [n for n in cands if parent(n) == parent(g)]
-        pick = same_parent if len(same_parent) == 1 else (cands if len(cands) == 1 else [])
-        if len(pick) == 1:
-            out[pick[0]] = g
-            used.add(pick[0])
+        if sg is not None:
+            gk.setdefault((parent(g), key(sg[0], sg[1])), []).append(g)
+    nk = {}
+    for n in new:
+        nk.setdefault((parent(n), key(have[n].get('inputs'), have[n].get('output'))), []).append(n)
+    # a vanished function and a new one are the same function only if they are the ONLY vanished / new function of their
+    # parent with that (order-insensitive) signature
+    for k, gs in gk.items():
+        ns = nk.get(k, [])
+        if len(gs) == 1 and len(ns) == 1:
+            out[ns[0]] = gs[0]
+    # several vanished / new functions with one signature under one parent: tell them apart by the functions they call
+    fpp = os.path.join(os.path.dirname(vp), 'vocab_fp.json')
+    if os.path.exists(fpp) and len(out) < len(gone):
+        reffp = json.load(open(fpp))
+        for k, gs in gk.items():
+            ns = nk.get(k, [])
+            if len(gs) < 2 or len(gs) != len(ns):
+                continue
+            names = set(short(x) for x in gs) | set(short(x) for x in ns)
+
+            def fp_new(n):
+                cs = []
+                for blk in have[n]['blocks']:
+                    tt = blk['term']
+                    if tt['k'] == 'call':
+                        nm = short(tt['callee'].get('resolved') or tt['callee'].get('path', 'indirect'))
+                        if nm not in names:
+                            cs.append(nm)
+                return sorted(cs)
+            fg = {g: sorted(x for x in reffp.get(g, []) if x not in names) for g in gs}
+            fn = {n: fp_new(n) for n in ns}
+            pairs = {}
+            okp = True
+
+            def sim(a, b0):
+                sa, sb = set(a), set(b0)
+                if not sa and not sb:
+                    return 1.0
+                return len(sa & sb) / float(len(sa | sb))
+            for g in gs:
+                sc = sorted(((sim(fg[g], fn[n]), n) for n in ns), reverse=True)
+                if sc[0][0] < 0.5 or (len(sc) > 1 and sc[0][0] - sc[1][0] < 0.25) or sc[0][1] in pairs.values():
+                    okp = False
+                    break
+                pairs[g] = sc[0][1]
+            if okp:
+                for g, n in pairs.items():
+                    out[n] = g
+    if len(out) < len(gone):
+        # second chance across parents of one module (a function moved to another impl block / became a free function)
+        left_g = [g for g in gone if g not in out.values()]
+        left_n = [n for n in new if n not in out]
+        gm, nm = {}, {}
+        for g in left_g:
+            sg = sigs.get(g)
+            if sg is not None:
+                gm.setdefault((module(g), key(sg[0], sg[1])), []).append(g)
+        for n in left_n:
+            nm.setdefault((module(n), key(have[n].get('inputs'), have[n].get('output'))), []).append(n)
+        for k, gs in gm.items():
+            ns = nm.get(k, [])
+            if len(gs) == 1 and len(ns) == 1:
+                out[ns[0]] = gs[0]
     return out
 
 
@@ -889,6 +948,109 @@ def _apply_renames(j, ren):
                 if st['k'] == 'assign' and st['r'].get('k') == 'agg' and st['r'].get('agg') == 'closure':
                     st['r']['closure'] = fix(st['r']['closure'])
     j['renamed'] = dict(ren)
+
+
+def _canonical_param_order(j):
+    """A vocabulary function whose parameters were reordered (together with its callers) is put back into the reference
+    order: parameter locals are renumbered inside the body and the arguments of every call are permuted. Only done when the
+    permutation is unambiguous (all parameter types distinct, or the reference names are still in use)."""
+    pp = os.path.join(os.path.dirname(os.path.dirname(os.path.abspath(__file__))), 'rules', 'vocab_params.json')
+    if not os.path.exists(pp):
+        return
+    ref = json.load(open(pp))
+    perms = {}
+    for b in j['bodies']:
+        r = ref.get(b['path'])
+        n = b['arg_count']
+        if r is None or len(r) != n or n < 2:
+            continue
+        cur_t = [b['locals'][i + 1]['ty'] for i in range(n)]
+        ref_t = [ty for nm, ty in r]
+        if cur_t == ref_t or sorted(cur_t) != sorted(ref_t):
+            continue
+        perm = None
+        if len(set(ref_t)) == n:
+            perm = [ref_t.index(ty) for ty in cur_t]                  # current position i -> reference position
+        else:
+            cur_n = [(b['locals'][i + 1]['names'] or [None])[0] for i in range(n)]
+            ref_n = [nm for nm, ty in r]
+            if None not in cur_n and sorted(cur_n) == sorted(ref_n) and len(set(ref_n)) == n:
+                perm = [ref_n.index(nm) for nm in cur_n]
+                if any(cur_t[i] != ref_t[perm[i]] for i in range(n)):
+                    perm = None
+        if perm is None or perm == list(range(n)):
+            continue
+        perms[b['path']] = perm
+        m = {i + 1: perm[i] + 1 for i in range(n)}
+
+        def fl(l):
+            return m.get(l, l)
+
+        def fix_place(p):
+            p['l'] = fl(p['l'])
+            for pr in p.get('pr', []):
+                if isinstance(pr, dict) and 'idx' in pr:
+                    pr['idx'] = fl(pr['idx'])
+
+        def fix_op(o):
+            if isinstance(o, dict) and o.get('k') in ('copy', 'move'):
+                fix_place(o['p'])
+        newl = list(b['locals'])
+        for i in range(n):
+            newl[perm[i] + 1] = b['locals'][i + 1]
+        b['locals'] = newl
+        if b.get('inputs') and len(b['inputs']) == n:
+            ni = list(b['inputs'])
+            for i in range(n):
+                ni[perm[i]] = b['inputs'][i]
+            b['inputs'] = ni
+        for blk in b['blocks']:
+            for st in blk['stmts']:
+                if st['k'] == 'assign':
+                    fix_place(st['p'])
+                    r0 = st['r']
+                    for key in ('a', 'b'):
+                        if isinstance(r0.get(key), dict):
+                            fix_op(r0[key])
+                    if isinstance(r0.get('p'), dict):
+                        fix_place(r0['p'])
+                    for o in r0.get('ops', []) or []:
+                        fix_op(o)
+                elif st['k'] == 'setdiscr':
+                    fix_place(st['p'])
+            t = blk['term']
+            if t['k'] == 'call':
+                for a in t['args']:
+                    fix_op(a)
+                fix_place(t['dest'])
+                if 'indirect' in t['callee']:
+                    fix_op(t['callee']['indirect'])
+            elif t['k'] == 'switch':
+                fix_op(t['discr'])
+            elif t['k'] == 'drop':
+                fix_place(t['p'])
+            elif t['k'] == 'assert':
+                fix_op(t['cond'])
+                for key in ('len', 'index'):
+                    if key in t:
+                        fix_op(t[key])
+    if not perms:
+        return
+    for b in j['bodies']:
+        for blk in b['blocks']:
+            t = blk['term']
+            if t['k'] != 'call':
+                continue
+            c = t['callee']
+            tgt = c.get('resolved') if c.get('resolved') in perms else (c.get('path') if c.get('path') in perms and not c.get('trait') else None)
+            if tgt is None or len(t['args']) != len(perms[tgt]):
+                continue
+            perm = perms[tgt]
+            na = list(t['args'])
+            for i in range(len(perm)):
+                na[perm[i]] = t['args'][i]
+            t['args'] = na
+    j['params_reordered'] = sorted(perms)
 
 
 def _canonical_params(j):
@@ -998,6 +1160,7 @@ class Facts:
     def __init__(self, path):
         self.j = json.load(open(path))
         _apply_renames(self.j, _rename_map(self.j))
+        _canonical_param_order(self.j)
         _canonical_params(self.j)
         _canonical_fields(self.j)
         self.bodies = {}
